@@ -260,6 +260,27 @@ int main(int argc, char** argv) {
       mxDestroyArray(val); mxDestroyArray(a);
     } catch (const std::exception& e) { fail("enum|raises", e.what()); }
   }
+  // an enumeration member returned twice (MATLAB frees what a gateway returned in between)
+  for (int round = 0; round < 3; ++round)
+    for (Color c : {Blue, Red, Blue}) {
+      ++g_checks;
+      try {
+        mxArray* a = wrap_enum<Color>(c, "enum.Color");
+        mxArray* val = mxGetProperty(a, 0, "value");
+        if (unwrap_enum<Color>(val) != c) fail("enum|roundtrip-second-time", show((int)c));
+        mxDestroyArray(val); mxDestroyArray(a);
+      } catch (const std::exception& e) { fail("enum|raises-second-time", e.what()); }
+    }
+  // ---------------- argument count check used by every generated routine
+  for (int expected = 0; expected <= 3; ++expected)
+    for (int nargin = 0; nargin <= 5; ++nargin) {
+      ++g_checks;
+      bool raised = false;
+      try { checkArguments("f", 1, nargin, expected); } catch (const std::exception&) { raised = true; }
+      if (raised != (nargin != expected))
+        fail(std::string("checkArguments|") + (nargin > expected ? "too-many-accepted" : nargin < expected ? "too-few-accepted" : "exact-count-rejected"),
+             "expected " + show(expected) + ", given " + show(nargin));
+    }
   // ---------------- errors: non-scalars where a scalar is required
   const size_t shapes[4][2] = {{0, 0}, {1, 2}, {2, 1}, {2, 2}};
   for (auto& s : shapes) {
